@@ -703,6 +703,18 @@ fn script_cases() -> Vec<ScriptCase> {
     // every means of assignment x every scope situation: the assignment reaches the innermost
     // visible variable of that name (the function's own local, else a caller's local, else the
     // global), or creates a global; locals vanish at return, globals assigned inside persist
+    // every way of *reading* a variable sees the innermost visible one: a local declared without a
+    // value hides the outer scalar from `$x`, `${x-U}`, `$((x))`, field splitting (IFS), tilde
+    // expansion (HOME) and getopts (OPTIND) alike
+    add("x=5; f() { typeset x; args \"${x-U}\" \"$((x+1))\" \"${#x}\"; }; f; args \"$x\" \"$((x+1))\"", &["args[U][1][0]", "args[5][6]"]);
+    add("x=5; g() { typeset x; f; }; f() { args \"${x-U}\" \"$((x+1))\"; }; g; f", &["args[U][1]", "args[5][6]"]);
+    add("x=5; f() { typeset x; : $((x+=2)); args \"$x\"; }; f; args \"$x\"", &["args[2]", "args[5]"]);
+    add("IFS=:; f() { typeset IFS; set -- $1; args \"$#\" \"$1\"; }; f a:b; set -- a:b; set -- $1; args \"$#\"", &["args[1][a:b]", "args[2]"]);
+    add("IFS=:; f() { typeset IFS; x=a:b; args $x; y=\"$*\"; args \"$y\"; }; f p q", &["args[a:b]", "args[p q]"]);
+    add("HOME=/g; f() { typeset HOME; args ~; }; f; args ~", &["args[~]", "args[/g]"]);
+    add("HOME=/g; f() { typeset HOME=/l; args ~ ~/x; }; f; args ~", &["args[/l][/l/x]", "args[/g]"]);
+    add("x=5; f() { typeset -x x; envp x; args \"${x-U}\"; }; f; args \"$x\"", &["exec[]", "args[U]", "args[5]"]);
+    add("export x=5; f() { typeset x; envp x; }; f; envp x", &["exec[]", "exec[x=5]"]);
     v.extend(assignment_means_cases());
     v
 }
